@@ -113,17 +113,24 @@ def sortKeys (l : List (String × Nat)) : List (String × Nat) := l.mergeSort fu
 def blockOffset (l : List (String × Nat)) (key : String) : Nat :=
   ((l.takeWhile fun kv => kv.1 != key).map Prod.snd).foldl (· + ·) 0
 
+/-- block copy operator: for every block `(ro, co, n)` rows `ro … ro+n-1` copy columns `co … co+n-1` -/
+def blockOps [OfNat K 1] (rows cols : Nat) (bs : List (Nat × Nat × Nat)) : Coo K :=
+  ⟨rows, cols, bs.flatMap fun b => (List.range b.2.2).map fun i => (b.1 + i, b.2.1 + i, (1 : K))⟩
+
+/-- cumulative row offsets of consecutive blocks of sizes `ns` -/
+def offsets : Nat → List Nat → List Nat
+  | _, [] => []
+  | o, n :: ns => o :: offsets (o + n) ns
+
 /-- target block with key `k` is domain block with key `ren k` (PartialExtractor, _SlowFieldAdapter,
-    PrependKey, FieldAdapter, Multifield2Vector) -/
+    PrependKey, FieldAdapter, Multifield2Vector): both layouts are the key-sorted concatenation of their blocks -/
 def blockSelect [OfNat K 1] (dom : List (String × Nat)) (tgt : List (String × String)) : Coo K :=
   let d := sortKeys dom
   let t := (tgt.mergeSort fun a b => !(b.1 < a.1)).map fun kk =>
-    (kk.1, kk.2, ((d.find? fun kv => kv.1 == kk.2).map Prod.snd).getD 0)
+    (blockOffset d kk.2, ((d.find? fun kv => kv.1 == kk.2).map Prod.snd).getD 0)
+  let ns := t.map Prod.snd
   let cols := (d.map Prod.snd).foldl (· + ·) 0
-  let ents := (t.foldl (fun (acc : Nat × List (Nat × Nat × K)) kk =>
-      let off := blockOffset d kk.2.1
-      (acc.1 + kk.2.2, acc.2 ++ (List.range kk.2.2).map fun i => (acc.1 + i, off + i, (1 : K)))) (0, [])).2
-  ⟨(t.map fun kk => kk.2.2).foldl (· + ·) 0, cols, ents⟩
+  blockOps (ns.foldl (· + ·) 0) cols ((offsets 0 ns).zip t)
 
 /-- OuterProduct(domain, field): `y[i, j] = f[i] · x[j]` -/
 def outerProduct [OfNat K 0] (n : Nat) (f : List K) : Coo K :=
@@ -185,6 +192,10 @@ def axisSelect [OfNat K 1] (sh : List Nat) (sel : List (List Nat)) : Coo K :=
     let k := unravel lens r
     ravel sh ((List.range sh.length).map fun d => (sel.getD d []).getD (k.getD d 0) 0)
 
+/-- SliceOperator, one axis: `npix` consecutive pixels, starting at `floor((n − npix)/2)` when centred, else at 0 -/
+def sliceSel (n npix : Nat) (center : Bool) : List Nat :=
+  (List.range npix).map fun k => (if center then (n - npix) / 2 else 0) + k
+
 /-- indices selected by a Python slice `start:stop:step` (step > 0, 0 ≤ start) on an axis of length `n` -/
 def sliceIdx (start stop step n : Nat) : List Nat :=
   let stop' := min stop n
@@ -207,6 +218,21 @@ def fftshift [Mul K] [OfNat K 1] (sh : List Nat) (axes : List Nat) (inverse : Bo
     (`flatten` / 1-D): `y[a, i, b] = Σ_j m[i, j] x[a, j, b]`, `m` given row-major `n × n` -/
 def matrixProduct [OfNat K 0] (pre n post : Nat) (m : List K) : Coo K :=
   onAxis pre post (ofRows n n fun i => (List.range n).map fun j => (j, m.getD (i * n + j) 0))
+
+/-- MatrixProductOperator on an arbitrary (also non-contiguous, also unsorted) tuple of sub-domains `spaces`:
+    `y[idx] = Σ_t m[idx|spaces, t] · x[idx with the spaces-part replaced by t]`; `m` row-major over
+    `(Π sizes[spaces]) × (Π sizes[spaces])` -/
+def matrixProductSp [OfNat K 0] (sizes spaces : List Nat) (m : List K) : Coo K :=
+  let asizes := spaces.map fun s => sizes.getD s 1
+  let nact := prodL asizes
+  ofRows (prodL sizes) (prodL sizes) fun r =>
+    let idx := unravel sizes r
+    let arow := ravel asizes (spaces.map fun s => idx.getD s 0)
+    (List.range nact).map fun t =>
+      let aidx := unravel asizes t
+      let cidx := (List.range sizes.length).map fun k =>
+        if spaces.contains k then aidx.getD (spaces.idxOf k) 0 else idx.getD k 0
+      (ravel sizes cidx, m.getD (arow * nact + t) 0)
 
 /-! real-linear operators on real-doubled coordinates `(re_0, im_0, re_1, im_1, …)` -/
 
